@@ -14,7 +14,7 @@ import mpmath
 import z3
 
 from pysx import engine, loader, calc, shims, lmroots
-from pysx.harness import CheckBase, main, run_pinned, concrete, test_rows, active_findings
+from pysx.harness import CheckBase, main, run_pinned, concrete, test_rows, NotPinned, active_findings
 from pysx.values import SymInt, SymQ, PREC
 from pysx.fracs import SymFrac
 
@@ -265,7 +265,10 @@ class Check(CheckBase):
                 ec, mp = load(1 << 40)
                 r = ec.calculate_lm(sym(steps), sym(rate), sym(accel), accum if accum == "clear" else sym(accum))
                 return concrete(tuple(r))
-            got = run_pinned(h)
+            try:
+                got = run_pinned(h)
+            except NotPinned:
+                continue          # result depends on a rounding direction the model leaves open
             assert tuple(got) == tuple(int(x) for x in exp), "translator validation failed on calculate_lm%r: %r vs %r" % ((steps, rate, accel, accum), got, exp)
             n += 1
         return n
